@@ -453,3 +453,32 @@ func init() {
 		return nil
 	}
 }
+
+
+// Process stop: vStop() stops the whole (modelled) process at this point - no deferred function of the
+// program under test runs, all goroutines end. vRunUntilStop(f) runs f and reports whether it was stopped.
+type stopSignal struct{}
+
+func init() {
+	harnessAPI["vStop"] = func(fr *frame, a []Value) Value {
+		panic(stopSignal{})
+	}
+	harnessAPI["vRunUntilStop"] = func(fr *frame, a []Value) (res Value) {
+		p := fr.p
+		depth0, stack0 := p.depth, len(p.stack)
+		res = fr.w.tt.False
+		defer func() {
+			if r := recover(); r != nil {
+				if _, ok := r.(stopSignal); !ok {
+					panic(r)
+				}
+				p.endThreads()
+				p.depth, p.stack = depth0, p.stack[:stack0]
+				p.atomicDepth = 0
+				res = fr.w.tt.True
+			}
+		}()
+		fr.w.call(fr, 0, a[0], nil)
+		return
+	}
+}
